@@ -607,8 +607,25 @@ def _oracle_runtime(case):
     for lab, v in vals[1:]:
         if json.dumps(v, sort_keys=True, default=str) != base:
             fails.append(dict(clause="workers-" + case["what"],
-                              detail="%s differs from %s" % (lab, vals[0][0])))
+                              detail="%s differs from %s%s" % (lab, vals[0][0], _first_diff(vals[0][1], v))))
     return fails[:3]
+
+
+def _first_diff(a, b, path=""):
+    """where two JSON values differ first (for the failure report)"""
+    if isinstance(a, list) and isinstance(b, list):
+        if len(a) != len(b):
+            return " at %s: %d vs %d elements" % (path or "top", len(a), len(b))
+        for i, (x, y) in enumerate(zip(a, b)):
+            if x != y:
+                return _first_diff(x, y, "%s[%d]" % (path, i))
+        return ""
+    if isinstance(a, dict) and isinstance(b, dict):
+        for k in sorted(set(a) | set(b), key=str):
+            if a.get(k) != b.get(k):
+                return _first_diff(a.get(k), b.get(k), "%s[%r]" % (path, k))
+        return ""
+    return " at %s: %s vs %s" % (path or "top", json.dumps(a, default=str)[:160], json.dumps(b, default=str)[:160])
 
 
 def oracle(case):
@@ -631,7 +648,12 @@ def _impl_runtime(case):      # noqa: F811
         vals = _runtime_result(case, consume=False)
         ref = [v for lab, v in vals if lab == "__ref__"][0]
         _write_side(case, dict(verdicts=[bool(x) for x in ref]))
-        return [[[d["n"] for d in v[0]], [d["n"] for d in v[1]]] for lab, v in vals if lab.startswith("n_jobs=")]
+        # a returned row is identified by its record number "n" (unique per row; the same reaction occurs in several rows) and reported
+        # as the POSITION of that row in the input; string forms: rows are identified by their (distinct) reaction
+        posn = {d["n"]: i for i, d in enumerate(case["data"])}
+        posr = {d["reactions"]: i for i, d in enumerate(case["data"])}
+        row = lambda d: posn.get(d["n"], -1) if "n" in d else posr.get(d["reactions"], -1)
+        return [[[row(d) for d in v[0]], [row(d) for d in v[1]]] for lab, v in vals if lab.startswith("n_jobs=")]
     return [0]
 
 
@@ -859,6 +881,19 @@ def _runtime_cases(tier, rng, us, ec):
     jobs = [[1, False, 1], [2, False, 1], [3, False, 1], [8, False, 1], [1, True, 2]] if q else \
         [[k, False, 1] for k in range(1, 9)] + [[1, True, 2], [1, True, 5], [2, True, 2]]
     cases.append(dict(kind="runtime", what="batch_jobs", subs=[r.split(">>")[0] for r in rx], rules=rx[:3], inv=False, jobs=jobs))
+    # every option of the reactor must reach the worker processes: the four explicit_h / implicit_temp combinations (they give four different
+    # answers on templates written with explicit hydrogens), strategy, dedupe, direction, cache off / tiny, dict entries, a second fit
+    # on the same object; each compared with the serial run AND with every entry alone (SynReactor rule by rule)
+    hsubs = list(H_SUBS)
+    rng.shuffle(hsubs)
+    wj = [[1, False, 1], [2, False, 1], [3, False, 1], [1, True, 2]]
+    for k, (eh, it) in enumerate([(False, False), (False, True), (True, False), (True, True)]):
+        if not q or k < 3 or rng.random() < 0.3:
+            cases.append(dict(kind="runtime", what="batch_jobs", subs=hsubs if k % 2 else hsubs[::-1], rules=list(H_RULES), inv=False, jobs=wj if not q else wj[:1] + [rng.choice(wj[1:3]), wj[3]],
+                              opts=dict(explicit_h=eh, implicit_temp=it), single=True, dict_entries=bool(k == 1), twice=bool(k == 0)))
+    cases.append(dict(kind="runtime", what="batch_jobs", subs=[r.split(">>")[0] for r in rx[:4]] + [rx[0].split(">>")[1]], rules=rx[:2], inv=rng.random() < 0.5,
+                      jobs=[[1, False, 1], [2, False, 1], [1, True, 2]], single=True, cache=rng.random() < 0.5, max=1,
+                      opts=dict(strategy=rng.choice(["comp", "all"]), dedupe=False)))
     def vdata(n, off, bad_gt=True):
         data = []
         for k in range(n):
@@ -893,8 +928,23 @@ def _runtime_cases(tier, rng, us, ec):
     bd[mid]["reactions"] = "not_a_smiles>>C"
     bd[mid + 2]["reactions"] = "C(C)(C)(C)(C)C>>CC"
     bd[mid + 3]["reactions"] = ">>"
+    # the same reaction string in several rows whose OTHER columns differ (record number, source): every row must come back with its
+    # own columns (a parallel path that shares work between equal reactions must not share the rows)
+    nb = len(bd)
+    rep = [bd[j]["reactions"] for j in (0, 1, 2, mid, 5, 1, 0, mid + 3, 9, 2)]          # balanced, unbalanced and malformed ones
+    for k, r in enumerate(rep):
+        bd.insert(3 + 4 * k, dict(reactions=r, n=nb + k))
+    for i, d in enumerate(bd):
+        d["src"] = "db%d" % (i % 3)
     cases.append(dict(kind="runtime", what="balance", data=bd, jobs=[1, 2, 3, 4] if q else list(range(1, 9)), second_pass=True))
     cases.append(dict(kind="runtime", what="balance", data=bd[:1], jobs=[1, 2]))
+    seen_r, distinct = set(), []
+    for d in bd:
+        if d["reactions"] not in seen_r:
+            seen_r.add(d["reactions"])
+            distinct.append(dict(reactions=d["reactions"], n=d["n"]))
+    cases.append(dict(kind="runtime", what="balance", data=distinct[:12], jobs=[1, 2, 3], form="strings"))
+    cases.append(dict(kind="runtime", what="balance", data=distinct[1:2], jobs=[1, 2], form="string"))
     cases.append(dict(kind="runtime", what="balance", data=[], jobs=[1, 2]))
     cases.append(dict(kind="runtime", what="syncrn",
                       rules=["[C:1][OH:2]>>[C:1]=[O:2]" if False else "[CH2:1][OH:2].[O:3]=[C:4][OH:5]>>[CH2:1][O:5][C:4]=[O:3].[OH2:2]",
@@ -902,6 +952,14 @@ def _runtime_cases(tier, rng, us, ec):
                       seeds=["CCO", "CC(=O)O", "OCCO", "NCC=O"][:(3 if q else 4)], repeats=2 if q else 3,
                       jobs=[[False, None], [True, 2], [True, 4]] if q else [[False, None]] + [[True, k] for k in (1, 2, 3, 4, 6, 8)]))
     return cases
+
+
+H_RULES = [           # templates written with explicit hydrogens: the hydrogen options change what they produce
+    "[CH3:1][C:2](=[O:3])[O:4][H:7].[CH3:5][O:6][H:8]>>[CH3:1][C:2](=[O:3])[O:6][CH3:5].[H:7][O:4][H:8]",
+    "[C:1][Br:2].[H:4][O:3][H:5]>>[C:1][O:3][H:5].[Br:2][H:4]",
+    "[C:1]=[C:2].[H:3][H:4]>>[C:1]([H:3])[C:2][H:4]",
+]
+H_SUBS = ["CC(=O)O.OCC", "CCBr.O", "OC(=O)CCBr.O.CO", "CC(=O)O.OCC", "BrCC=C.O", "C=CC.[HH]"]
 
 
 CRN_RULES = {
